@@ -1,6 +1,7 @@
 import JmesVerif.Lemmas.Signature
 import JmesVerif.Generated.Signatures
 import JmesVerif.Generated.Vocab
+import JmesVerif.Lemmas.CodeEquiv
 /-!
 # C06 — built-in functions enforce their signatures: arity and argument types
 
@@ -111,6 +112,13 @@ theorem C06_type_vocabulary :
   · intro v; cases v <;> simp [Generated.variableVariant, Generated.variableFields]
   · intro v; cases h : v.type <;> simp [Generated.jmespathTypeVariant, Generated.jmespathTypeFields]
 
+
+/-! ### `Signature::validate_arity` as re-translated from functions.rs on every run equals the model's arity check -/
+open Generated.Code in
+theorem C06_translated_validate_arity (s : Sig) (actual off : Nat) :
+    arityToExcept off (validate_arity s.inputs s.variadic actual) = s.validateArity actual off :=
+  gen_validate_arity_eq s actual off
+
 end JmesVerif
 
 #print axioms JmesVerif.C06_signature_table
@@ -123,3 +131,4 @@ end JmesVerif
 #print axioms JmesVerif.C06_no_unreachable
 #print axioms JmesVerif.C06_expref_args_shape
 #print axioms JmesVerif.C06_type_vocabulary
+#print axioms JmesVerif.C06_translated_validate_arity
